@@ -463,6 +463,14 @@ pub fn gen(rng: &mut Rng, p: &Params) -> Vec<String> {
                     ord3(&s1, &s2)
                 ));
             }
+            12 if r.chance(30) => {
+                // fork rules (C19 / C02): every network name, heights around each activation height
+                for net in ["bitcoin", "mainnet", "signet", "testnet", "testnet4", "regtest", "-", "foo"] {
+                    for h in [0u64, 1, 274_999, 275_000, 275_001, 923_368, 923_369, 923_370, 928_999, 929_000, 929_001, u64::MAX, a_u64(r)] {
+                        lines.push(format!("fork {} {}", net, h));
+                    }
+                }
+            }
             12 if r.chance(50) => {
                 // gas allowance arithmetic (C16): around the saturation point of n * 12000
                 let sat = u64::MAX / 12000;
@@ -640,6 +648,25 @@ pub fn exec(lines: &[String], out: &mut Out) {
                     out.oracle_fail(&case, "order", &format!("encoded keys {} vs {} compare {}, the values compare {}", a, b, got, want));
                 }
                 out.line(&format!("ord {} {}", a, b), got);
+            }
+            ["fork", net, h] => {
+                let h: u64 = h.parse().unwrap_or(0);
+                let name = if *net == "-" { "" } else { *net };
+                let old = CONFIG.read().bitcoin_rpc_network.clone();
+                CONFIG.write_fn_unchecked(|c| c.bitcoin_rpc_network = name.to_string());
+                let (spec, rlp) = fork_rules(h);
+                CONFIG.write_fn_unchecked(|c| c.bitcoin_rpc_network = old.clone());
+                // the pinned protocol (version 2): Prague from 923369 on mainnet, 275000 on signet, always elsewhere;
+                // RLP transaction hashes from 929000 on mainnet, always elsewhere
+                let (want_prague, want_rlp) = match name {
+                    "bitcoin" | "mainnet" => (h >= 923_369, h >= 929_000),
+                    "signet" => (h >= 275_000, true),
+                    _ => (true, true),
+                };
+                if (spec == "PRAGUE") != want_prague || (spec != "PRAGUE" && spec != "CANCUN") || rlp != want_rlp {
+                    out.oracle_fail(&case, "fork-rule", &format!("network `{}` height {}: rules {} / rlp hash {}, the pinned protocol says prague={} rlp={}", name, h, spec, rlp, want_prague, want_rlp));
+                }
+                out.line(line, &format!("{} {}", spec, rlp));
             }
             ["gas", n] => {
                 let n: u64 = n.parse().unwrap_or(0);
